@@ -54,3 +54,43 @@ func HarnessResidueUnmarshalReplay(p0 int) {
 	}
 	vassert(ok, "residue UnmarshalBinary accepts exactly the elements of the order-Q subgroup")
 }
+
+// C17 — Pick / Embed(nil) on the residue group returns only members of the order-Q subgroup (cofactor 6 here).
+type c04Stream struct{ n int }
+
+func (s *c04Stream) XORKeyStream(dst, src []byte) {
+	s.n++
+	for i := range src {
+		dst[i] = src[i] ^ nondetU8()
+	}
+}
+
+func HarnessResiduePick() {
+	g := c04Residue()
+	P := &residuePoint{g: g}
+	P.Pick(&c04Stream{})
+	vreach("returned")
+	// Valid() is the membership predicate (HarnessResidueUnmarshal shows: Valid <=> 0 < x < P and x^Q = 1): whatever test
+	// Embed used to accept its candidate, the returned point must satisfy it
+	vassert(P.Valid(), "residue Pick returns an element of the order-Q subgroup")
+}
+
+type c04Ctr struct{ k byte }
+
+func (s *c04Ctr) XORKeyStream(dst, src []byte) {
+	for i := range src {
+		s.k = s.k*37 + 11
+		dst[i] = src[i] ^ s.k
+	}
+}
+
+func HarnessResiduePickReplay() {
+	g := c04Residue()
+	ok := true
+	for seed := 0; seed < 64; seed++ {
+		P := &residuePoint{g: g}
+		P.Pick(&c04Ctr{k: byte(seed)})
+		ok = ok && P.Sign() > 0 && P.Cmp(g.P) < 0 && new(big.Int).Exp(&P.Int, g.Q, g.P).Cmp(big.NewInt(1)) == 0
+	}
+	vassert(ok, "residue Pick returns an element of the order-Q subgroup")
+}
